@@ -197,10 +197,10 @@ Qed.
     [slots] field lines are complete in [p]: the partial parser says "nothing yet", or it reports the
     head's version and status and exactly the fields whose lines are complete in [p] (up to the first
     empty-valued one, where src/parser.rs stops copying). *)
-Theorem partial_response_sound slots h p x :
+Lemma partial_response_sound_strong slots h p x :
   wf_resp_head h -> render_response_head h = p ++ x ->
   (List.length (complete_fields h p) <= slots)%nat ->
-  try_parse_partial_response slots p = Ok None \/
+  (try_parse_partial_response slots p = Ok None /\ complete_fields h p = []) \/
   try_parse_partial_response slots p = Ok (Some (partial_response_of h (complete_fields h p))).
 Proof.
   intros Hwf Hp Hn. pose proof Hwf as (_ & _ & _ & Hfs).
@@ -226,8 +226,8 @@ Proof.
       rewrite Hc. destruct (response_partial_status_line slots h p y Hwf Hy Hne) as (H1 & H2 & H3 & H4).
       unfold try_parse_partial_response.
       destruct (parse_response slots p) as [s v]. cbn [fst snd] in *. subst s.
-      destruct H3 as [H3|H3]; rewrite H3; [left; reflexivity|].
-      destruct H4 as [H4|H4]; rewrite H4; [left; reflexivity|].
+      destruct H3 as [H3|H3]; rewrite H3; [left; split; reflexivity|].
+      destruct H4 as [H4|H4]; rewrite H4; [left; split; reflexivity|].
       right. destruct Hwf as (_ & Hst & _ & _). rewrite status_ok_wf by exact Hst. cbn [bind].
       rewrite H2. reflexivity.
     + (* after the status line: k complete lines and a strict prefix of the next one *)
@@ -243,6 +243,16 @@ Proof.
       * discriminate.
       * exact Hwf.
       * apply Forall_firstn. exact Hfs.
+Qed.
+
+Theorem partial_response_sound slots h p x :
+  wf_resp_head h -> render_response_head h = p ++ x ->
+  (List.length (complete_fields h p) <= slots)%nat ->
+  try_parse_partial_response slots p = Ok None \/
+  try_parse_partial_response slots p = Ok (Some (partial_response_of h (complete_fields h p))).
+Proof.
+  intros Hwf Hp Hn.
+  destruct (partial_response_sound_strong slots h p x Hwf Hp Hn) as [[H _]|H]; [left|right]; exact H.
 Qed.
 
 Corollary partial_response_total slots h p x :
@@ -273,3 +283,53 @@ Theorem partial_view_mono slots b x :
   (hv_code v = None \/ hv_code v' = hv_code v) /\
   exists t, hv_headers v' = hv_headers v ++ t.
 Proof. exact (response_view_mono slots b x). Qed.
+
+(** ** What [complete_fields] means: a prefix of the head's field list whose lines lie inside [p]. *)
+Lemma fields_within_prefix : forall fs n, exists t, fs = fields_within fs n ++ t.
+Proof.
+  induction fs as [|f t IH]; intros n; cbn [fields_within]; [exists []; reflexivity|].
+  destruct (len (render_field f) <=? n).
+  - destruct (IH (n - len (render_field f))) as [t' Ht']. exists t'. cbn [app]. f_equal. exact Ht'.
+  - exists (f :: t). reflexivity.
+Qed.
+
+Lemma fields_within_len : forall fs n, len (render_lines (fields_within fs n)) <= n.
+Proof.
+  induction fs as [|f t IH]; intros n; cbn [fields_within]; [cbn; lia|].
+  destruct (N.leb_spec (len (render_field f)) n); [|cbn; lia].
+  rewrite render_lines_cons, len_app. specialize (IH (n - len (render_field f))). lia.
+Qed.
+
+Theorem complete_fields_prefix h p : exists t, rh_fields h = complete_fields h p ++ t.
+Proof. apply fields_within_prefix. Qed.
+
+Theorem complete_fields_contained h p x :
+  render_response_head h = p ++ x -> complete_fields h p <> [] ->
+  exists q, p = render_status_line h ++ render_lines (complete_fields h p) ++ q.
+Proof.
+  intros Hp Hne.
+  assert (Hlen : len (render_status_line h) + len (render_lines (complete_fields h p)) <= len p).
+  { pose proof (fields_within_len (rh_fields h) (len p - len (render_status_line h))) as Hl.
+    fold (complete_fields h p) in Hl.
+    destruct (N.le_gt_cases (len (render_status_line h)) (len p)) as [Hle|Hgt]; [lia|].
+    exfalso. apply Hne. unfold complete_fields.
+    replace (len p - len (render_status_line h)) with 0 by lia. apply fields_within_zero. }
+  destruct (complete_fields_prefix h p) as [t Ht].
+  unfold render_response_head in Hp. rewrite Ht, render_lines_app in Hp.
+  rewrite <- app_assoc in Hp. rewrite app_assoc in Hp.
+  apply app_eq_app in Hp. destruct Hp as [l [[H1 H2]|[H1 H2]]].
+  - pose proof (f_equal (@len N) H1) as Hl1. rewrite !len_app in Hl1.
+    assert (l = []) by (apply len_zero_nil; lia). subst l. rewrite app_nil_r in H1.
+    exists []. rewrite app_nil_r. symmetry. exact H1.
+  - exists l. rewrite <- app_assoc in H1. exact H1.
+Qed.
+
+(** Sanity of the specification: the three status digits are the decimal rendering of the status. *)
+Lemma status_digits_dec s : 100 <= s <= 999 -> status_digits s = dec_of s.
+Proof.
+  intros H.
+  assert (Hall : forallb (fun k => beq_bytes (status_digits (N.of_nat k)) (dec_of (N.of_nat k)))
+                         (seq 100 900) = true) by (vm_compute; reflexivity).
+  rewrite forallb_forall in Hall. specialize (Hall (N.to_nat s)).
+  rewrite N2Nat.id in Hall. apply beq_bytes_eq. apply Hall. apply in_seq. lia.
+Qed.
